@@ -233,6 +233,64 @@ theorem retry_then_history (w : World) (ss : List Shape) (h : WInvW w ss) (hh : 
   rw [call_finalize_dirty w hd]
   exact hx
 
+/-! ### what a failed write leaves behind -/
+
+/-- A `write_shape` that is not the first and is hit by a fault leaves the writer's state as it was
+before the call (`failing_call_returns_error`) and, in each destination, some bytes appended behind
+what it held (`Dst.runFaulty_prefix`: a part of the record, a part of the index entry).  From ANY
+such world a finalize on working destinations writes the header of the shapes accepted so far: the
+files are those of the accepted shapes followed by the leftover bytes, which lie beyond the length
+the headers declare — a reader does not see them (C03, C04). -/
+theorem failed_write_then_finalize (w : World) (ss : List Shape) (h : WInv w ss) (hne : ss ≠ [])
+    (hd : w.st.dirty = true) (junkShp junkShx : Bytes) :
+    let w' : World := { w with shp := ⟨w.shp.data ++ junkShp, w.shp.data.length + junkShp.length⟩,
+                               shx := ⟨w.shx.data ++ junkShx, w.shx.data.length + junkShx.length⟩ }
+    (w'.call .finalize).2 = .ok () ∧
+    (w'.call .finalize).1.shp.data = shpFile ss ++ junkShp ∧
+    (w.st.hasShx = true → (w'.call .finalize).1.shx.data = shxFile ss ++ junkShx) := by
+  intro w'
+  have hd' : w'.st.dirty = true := hd
+  rw [call_finalize_dirty w' hd']
+  have hh : hdrOf w.st = finalHeader ss := hdrOf_of_inv h
+  have hx' : shxHdrOf w.st = finalShxHeader ss := shxHdrOf_of_inv h
+  refine ⟨rfl, ?_, ?_⟩
+  · obtain ⟨hb, hhb, hdat, _⟩ := h.shp
+    have hl : hb.length = 100 := by
+      rcases hhb with hhb | ⟨_, h2⟩
+      · exact hhb
+      · exact absurd h2 hne
+    have hm : Mid (recordsFrom (fileTypeOf ss) 1 ss ++ junkShp) w'.shp :=
+      ⟨hb, by omega, fun hlt => by omega, by show w.shp.data ++ junkShp = _; rw [hdat, List.append_assoc]⟩
+    show (rewriteHeader w'.shp (hdrOf w.st).enc).data = _
+    rw [rewriteHeader_mid w'.shp _ _ hm (Header.enc_length _), hh]
+    simp [shpFile, List.append_assoc]
+  · intro hx
+    have hs := h.shx
+    rw [hx] at hs
+    simp only [if_true] at hs
+    obtain ⟨hb, hhb, hdat, _⟩ := hs
+    have hl : hb.length = 100 := by
+      rcases hhb with hhb | ⟨_, h2⟩
+      · exact hhb
+      · exact absurd h2 hne
+    have hm : Mid (entriesFrom 50 ss ++ junkShx) w'.shx :=
+      ⟨hb, by omega, fun hlt => by omega, by show w.shx.data ++ junkShx = _; rw [hdat, List.append_assoc]⟩
+    have hxs : w'.st.hasShx = true := hx
+    simp only [hxs, if_true]
+    show (rewriteHeader w'.shx (shxHdrOf w.st).enc).data = _
+    rw [rewriteHeader_mid w'.shx _ _ hm (Header.enc_length _), hx']
+    simp [shxFile, List.append_assoc]
+
+/-- ... so within the length its header declares, the .shp after that finalize IS the file of the
+accepted shapes -/
+theorem failed_write_then_finalize_declared (w : World) (ss : List Shape) (h : WInv w ss) (hne : ss ≠ [])
+    (hd : w.st.dirty = true) (junkShp junkShx : Bytes) :
+    let w' : World := { w with shp := ⟨w.shp.data ++ junkShp, w.shp.data.length + junkShp.length⟩,
+                               shx := ⟨w.shx.data ++ junkShx, w.shx.data.length + junkShx.length⟩ }
+    ((w'.call .finalize).1.shp.data).take (shpFile ss).length = shpFile ss := by
+  intro w'
+  rw [(failed_write_then_finalize w ss h hne hd junkShp junkShx).2.1, List.take_left]
+
 /-- the faulty run of a plan, destination by destination -/
 theorem runOps_shp (fw : FWorld) (sops : List IOOp) (rest : List (DestId × IOOp)) :
     fw.runOps (sops.map (fun o => (DestId.shp, o)) ++ rest) =
